@@ -60,7 +60,7 @@ def revLoop (eq : Pt α → Pt α → Bool) (z : Pt α) (closed : Bool) (first :
       if closed && prevIsMoveOrNone rest then .close first :: revLoop eq z false first rest
       else .line e :: revLoop eq z closed first rest
     | .quad cp _ => .quad cp e :: revLoop eq z closed first rest
-    | .cube c1 c2 _ => .cube c1 c2 e :: revLoop eq z closed first rest
+    | .cube c1 c2 _ => .cube c2 c1 e :: revLoop eq z closed first rest
     | .arc rx ry phi l s _ => .arc rx ry phi l (!s) e :: revLoop eq z closed first rest
 
 /-- `Path.Reverse`, records in array order (oldest first). -/
@@ -233,6 +233,43 @@ def closedFlags : List (Cmd α) → List Bool
   | [] => []
   | .move _ :: cs => runClosed cs :: closedFlags cs
   | _ :: cs => closedFlags cs
+
+/-! ## Reading a record array as a structured path -/
+
+/-- longest prefix of drawing commands, and the rest -/
+def takeBody : List (Cmd α) → List (Cmd α) × List (Cmd α)
+  | [] => ([], [])
+  | c :: cs => if c.isDraw then ((c :: (takeBody cs).1), (takeBody cs).2) else ([], c :: cs)
+
+/-- group records (array order) into subpaths; `none` unless the array is
+`(M (L|Q|C|A)* (Z carrying the M's coordinates)?)*`.  The fuel is the number of records. -/
+def toSubsN [DecidableEq α] : Nat → List (Cmd α) → Option (List (SubPath α))
+  | _, [] => some []
+  | 0, _ :: _ => none
+  | n + 1, c :: cs =>
+    match c with
+    | .move p =>
+      match (takeBody cs).2 with
+      | .close q :: rest' =>
+        if q = p then (toSubsN n rest').map (fun l => ⟨p, (takeBody cs).1, true⟩ :: l) else none
+      | rest => (toSubsN n rest).map (fun l => ⟨p, (takeBody cs).1, false⟩ :: l)
+    | _ => none
+
+def toSubs [DecidableEq α] (cs : List (Cmd α)) : Option (List (SubPath α)) := toSubsN cs.length cs
+
+/-! ## The cutting loop of SplitAt for one Bézier segment (path.go:1563-1575, 1598-1610) -/
+
+/-- For the cut parameters `ts` returned by `invL` (in order): `tsub := (t - t0)/(1 - t0)`, split the
+remainder at `tsub`, emit the left part, keep the right part, `t0 := t`.  Result: the emitted pieces
+and the final remainder.  Generic in the scalar and in the curve type `Q` (control polygon) so that
+the same definition is run on `Float` against the real code and reasoned about over a field. -/
+def cutsGen {Q : Type} (sub div : α → α → α) (one : α) (splitL splitR : Q → α → Q) (r : Q) (t0 : α) :
+    List α → List Q × Q
+  | [] => ([], r)
+  | t :: ts =>
+    let tsub := div (sub t t0) (sub one t0)
+    let rest := cutsGen sub div one splitL splitR (splitR r tsub) t ts
+    (splitL r tsub :: rest.1, rest.2)
 
 /-! ## ellipseSplit flag logic (path_util.go:149-162) -/
 
